@@ -118,19 +118,21 @@ def dynamic_predicates(ctx, L):
     preds = {'evaluate_partial_padding_size': (lam.body, lam.args.args[0].arg),
              'partition': (pifs[0].test, 'member'),
              'is_member_dynamic': (imd.node.body[-1].value, imd.params[0])}
-    dom = [a for a in predabs.domain() if not a.last and a.padding == 0]
+    dom = [a for a in predabs.domain() if a.padding == 0]
     n = 0
     for a in dom:
         want = a.form in ('dynamic', 'greedy') or a.kind != FIXED      # documented: blocks end with dynamic fields
         for name, (expr, var) in sorted(preds.items()):
+            if a.last and name != 'is_member_dynamic':
+                continue        # the splitters never see the last member; is_member_dynamic also decides the end padding form
             try:
                 got = bool(predabs.Evaluator(props, var).ev(expr, a))
             except predabs.Unknown as e:
                 raise AnalysisError('%s: predicate term not recognised: %s' % (name, e))
             n += 1
             L.check(got == want, 'E6.dynamic-field-predicate', '%s|%s' % (name, a.label()), m.rel + ' (%s)' % name,
-                    '`%s` says %s for a non-last `%s` member; the documented rule ("blocks end with dynamic fields") and the '
-                    'sibling predicates say %s' % (ws(unparse(expr)), got, a.label(), want), ws(unparse(expr)))
+                    '`%s` says %s for a%s `%s` member; the documented rule ("blocks end with dynamic fields") and the '
+                    'sibling predicates say %s' % (ws(unparse(expr)), got, ' last' if a.last else ' non-last', a.label(), want), ws(unparse(expr)))
     L.floor('E6.dynamic-field-predicate', n, 60)
     src = ws(unparse(part.node))
     for piece, why in (('for member in members[:-1]:', 'only non-last members can close a part'),
